@@ -1,33 +1,101 @@
 package explore
 
 import (
+	"encoding/json"
+	"os"
 	"sort"
 	"sync"
+	"sync/atomic"
 	"time"
+
+	"verif/worlds"
 )
 
 // inFlight journals the histories being executed right now, so that a watchdog can name the
 // suspect when an execution never returns (infinite loop, unbounded allocation).
-var inFlight sync.Map // *Trace -> time.Time
+var inFlight sync.Map // *Trace -> *flight
+
+type flight struct {
+	start time.Time
+	block int32 // index of the block being executed, -1 before the first
+}
+
+// Suspect is an execution that has been running for a long time.
+type Suspect struct {
+	World   string        `json:"world"`
+	Prefix  History       `json:"prefix"` // the history up to and including the block being executed
+	Running time.Duration `json:"running_ns"`
+}
+
+func (s Suspect) String() string {
+	return "world " + s.World + " history " + s.Prefix.String() + " (running for " + s.Running.Round(time.Second).String() + ")"
+}
 
 // InFlight lists the executions running for longer than d, oldest first.
-func InFlight(d time.Duration) []string {
-	type e struct {
-		s string
-		t time.Time
-	}
-	var es []e
+func InFlight(d time.Duration) []Suspect {
+	var out []Suspect
 	inFlight.Range(func(k, v interface{}) bool {
-		tr, t := k.(*Trace), v.(time.Time)
-		if time.Since(t) >= d {
-			es = append(es, e{"world " + tr.W.Name + " history " + tr.Hist.String(), t})
+		tr, f := k.(*Trace), v.(*flight)
+		if el := time.Since(f.start); el >= d {
+			b := int(atomic.LoadInt32(&f.block))
+			if b < 0 || b >= len(tr.Hist) {
+				return true
+			}
+			out = append(out, Suspect{World: tr.W.Name, Prefix: tr.Hist[:b+1].Clone(), Running: el})
 		}
 		return true
 	})
-	sort.Slice(es, func(i, j int) bool { return es[i].t.Before(es[j].t) })
-	var out []string
-	for _, x := range es {
-		out = append(out, x.s+" (running for "+time.Since(x.t).Round(time.Second).String()+")")
-	}
+	sort.Slice(out, func(i, j int) bool { return out[i].Running > out[j].Running })
 	return out
+}
+
+// Poisoned prefixes: blocks that an earlier process of the same check was abandoned in. Exec
+// ends such a block with a fault of kind "hang" instead of executing it again.
+var (
+	poisonMu sync.RWMutex
+	poison   = map[string]bool{}
+	Poisoned []Suspect
+)
+
+func poisonKey(world string, h History) string { return world + "|" + h.String() }
+
+// LoadPoison reads the poison file named by VERIF_POISON (if any).
+func LoadPoison() {
+	p := os.Getenv("VERIF_POISON")
+	if p == "" {
+		return
+	}
+	b, err := os.ReadFile(p)
+	if err != nil {
+		return
+	}
+	var l []Suspect
+	if json.Unmarshal(b, &l) != nil {
+		return
+	}
+	poisonMu.Lock()
+	defer poisonMu.Unlock()
+	Poisoned = l
+	for _, s := range l {
+		poison[poisonKey(s.World, s.Prefix)] = true
+	}
+}
+
+// SavePoison writes the poisoned prefixes plus new ones.
+func SavePoison(path string, add []Suspect) error {
+	poisonMu.RLock()
+	l := append(append([]Suspect{}, Poisoned...), add...)
+	poisonMu.RUnlock()
+	b, _ := json.Marshal(l)
+	return os.WriteFile(path, b, 0o644)
+}
+
+// IsPoisoned tells whether the last block of h was abandoned by an earlier process.
+func IsPoisoned(w *worlds.World, h History) bool {
+	poisonMu.RLock()
+	defer poisonMu.RUnlock()
+	if len(poison) == 0 {
+		return false
+	}
+	return poison[poisonKey(w.Name, h)]
 }
